@@ -10,7 +10,7 @@ def sh(cmd, cwd=None, env=None, timeout=900):
     return r.returncode, (r.stdout + r.stderr)
 
 def confirm(pid, n):
-    src = f"/tmp/wt/{pid}-out/{n}"
+    src = f"{os.environ.get('SEED_SRC', '/tmp/wt')}/{pid}-out/{n}"
     if not os.path.exists(f"{src}/patch.diff"):
         return pid, n, "missing deliverables"
     wt = tempfile.mkdtemp(prefix=f"seedchk-{pid}-{n}-", dir="/tmp")
@@ -30,11 +30,12 @@ def confirm(pid, n):
         ran.append(f"baseline_check with patch: exit {rcb} {outb.strip().splitlines()[0] if outb.strip() else ''}")
         ok = rc0 == 0 and rc1 != 0 and rcb == 0
         if ok:
-            dst = f"{V}/seeded/{pid}-{n}"
+            dst = f"{V}/seeded/{pid}-{int(n) + int(os.environ.get('SEED_OFFSET', '0'))}"
             os.makedirs(dst, exist_ok=True)
             shutil.copy(f"{src}/patch.diff", dst); shutil.copy(f"{src}/demo.py", dst)
             meta = json.load(open(f"{src}/meta.json")) if os.path.exists(f"{src}/meta.json") else {}
             meta["property"] = pid
+            meta["round"] = 2 if os.environ.get("SEED_OFFSET") else 1
             meta["confirmed"] = ran
             meta["demo_output_with_patch"] = out1[-1500:]
             json.dump(meta, open(f"{dst}/meta.json", "w"), indent=1)
